@@ -125,9 +125,14 @@ def build_op(cfg, X):
         if k == 'matcomp':
             op = cfg['c'] * op
         return op
-    if k == 'gradient':
-        return o.Gradient(X, method=cfg['method'], pad_mode=cfg['pad_mode'])
-    if k == 'partial':
+    if k in ('gradient', 'partial'):
+        if cfg['pad_mode'] in ('order1', 'order2') and min(X.shape) < 3:
+            # documented: these paddings need 2 / 3 points along the axis
+            # (checked at call time)
+            raise Reject('axis too short for ' + cfg['pad_mode'])
+        if k == 'gradient':
+            return o.Gradient(X, method=cfg['method'],
+                              pad_mode=cfg['pad_mode'])
         return o.PartialDerivative(X, axis=cfg.get('axis', 0),
                                    method=cfg['method'],
                                    pad_mode=cfg['pad_mode'])
